@@ -794,7 +794,20 @@ func (st *State) stringOfBytes(snap map[string]string, b Term) Term {
 	if bi, ok := st.sliceBase[b.S]; ok {
 		return app(SStr, fn, slArr(bi.Base), add(slOff(bi.Base), bi.Delta), slLen(b))
 	}
-	return app(SStr, fn, slArr(b), slOff(b), slLen(b))
+	res := app(SStr, fn, slArr(b), slOff(b), slLen(b))
+	ak := slArr(b).S
+	if strings.HasPrefix(b.S, "(mk-slice ") {
+		ak = strings.Fields(b.S[len("(mk-slice "):])[0]
+	}
+	if s, ok := st.strConv[ak]; ok {
+		// extensionality instance: the bytes of an array made by []byte(s), if still those of s, spell s
+		key := "strext:" + res.S
+		if !st.sc.declared[key] {
+			st.sc.declared[key] = true
+			st.sc.emit("(assert (=> (and (= %[1]s 0) (= %[2]s (gstr.len %[3]s)) (forall ((k!x Int)) (=> (and (<= 0 k!x) (< k!x %[2]s)) (= (%[4]s %[5]s %[1]s k!x) (gstr.at %[3]s k!x))))) (= %[6]s %[3]s)))", slOff(b).S, slLen(b).S, s.S, esym, slArr(b).S, res.S)
+		}
+	}
+	return res
 }
 
 // ---------------------------------------------------------------------------
